@@ -1,5 +1,6 @@
 """Shared plumbing of the /verif check driver: scratch dirs, overlay builds of the Go harnesses into the
 repository under test, TLC runs, evidence files, known findings.  Standard library only."""
+import random
 import atexit, json, os, re, shutil, subprocess, sys, tempfile, time, glob, hashlib
 
 VERIF = os.path.dirname(os.path.dirname(os.path.abspath(__file__)))
@@ -77,6 +78,48 @@ def build_harness(name, pkg_rel, virtual_pkgs=None, inpkg=None, race=False, tags
     if p.returncode != 0 or not os.path.exists(out):
         raise Infra("harness build failed (%s):\n%s\n%s" % (" ".join(cmd), p.stdout[-4000:], p.stderr[-4000:]))
     return out
+
+
+class FileProc:
+    """A harness process whose stdout / stderr go to FILES: several such processes are started together and waited for one
+    after the other, and a process that prints a lot (the code under test prints with fmt.Println in places) must not block
+    on a pipe nobody is reading yet - to the harness's watchdogs that looked like a decoder that hangs."""
+    def __init__(self, args, env, cwd):
+        tag = "%d_%d" % (os.getpid(), random.randrange(1 << 30))
+        self._so, self._se = os.path.join(cwd, "stdout_%s.txt" % tag), os.path.join(cwd, "stderr_%s.txt" % tag)
+        self._fo, self._fe = open(self._so, "w"), open(self._se, "w")
+        self.p = subprocess.Popen(args, env=env, cwd=cwd, stdout=self._fo, stderr=self._fe, text=True)
+
+    def _tail(self, path, n=200000):
+        try:
+            with open(path, "rb") as f:
+                f.seek(0, 2)
+                size = f.tell()
+                f.seek(max(0, size - n))
+                return f.read().decode("utf-8", "replace")
+        except OSError:
+            return ""
+
+    def communicate(self, timeout=None):
+        try:
+            self.p.wait(timeout=timeout)
+        finally:
+            self._fo.close()
+            self._fe.close()
+        so, se = self._tail(self._so), self._tail(self._se)
+        for f in (self._so, self._se):
+            try:
+                os.unlink(f)
+            except OSError:
+                pass
+        return so, se
+
+    def kill(self):
+        self.p.kill()
+
+    @property
+    def returncode(self):
+        return self.p.returncode
 
 
 def run_harness(binary, env_extra, timeout=3600, cwd=None):
